@@ -111,6 +111,8 @@ void h_drain(void)
   Rig3 r; setup3(&r); UdpEngine *E = &r.E;
   const size_t cur0 = E->_atomicStats.sessionsCurrent; const uint64_t closed0 = E->_atomicStats.closed; const bool xset = E->_cbs.onClose.set;
   const bool idxhas0 = E->_peerIndex.has; const bool thas0 = E->_tags.has;
+  /* INV Ia in the pre-state (udp_recv): the index entry for the witness key, if any, names an open listener-side session of the table keyed by that key */
+  bool inv0 = !idxhas0; for (int k = 0; k < 3; k++) if (idxhas0 && r.present0[k] && !r.closed0[k] && !r.client0[k] && T_id[k] == E->_peerIndex.val && r.S[k]->pkey == GPK) inv0 = true;
   bool idx_owner_open = false;      /* some open listener-side session carries the witness peer key */
   for (int k = 0; k < 3; k++) if (r.present0[k] && !r.closed0[k] && !r.client0[k] && r.S[k]->pkey == GPK) idx_owner_open = true;
 
@@ -131,6 +133,7 @@ void h_drain(void)
   __CPROVER_assert(E->_atomicStats.closed == closed0 + r.open0 && E->_atomicStats.sessionsCurrent == cur0 - r.open0, "D6 closed counter and gauge move by exactly the number of open sessions");
   __CPROVER_assert(cur0 != r.open0 || E->_atomicStats.sessionsCurrent == 0, "D7 the gauge returns to zero when it counted exactly the open sessions");
   __CPROVER_assert(G_close_calls == r.clients0 && G_delEpoll_calls == r.clients0, "D8 exactly the connected-client sockets are unregistered and closed, once each; the shared listener sockets are not");
+  __CPROVER_assert(!inv0 || !E->_peerIndex.has, "D16 shutdownDrain re-establishes the index invariant: an entry that named an open listener-side session of the table (INV Ia) does not survive - no entry points at a session it closed");
   __CPROVER_assert(!G.cl.gfd_closed || !E->_tags.has, "D13 (stale tag) a descriptor that shutdownDrain closed keeps no tag");
   __CPROVER_assert(G.cl.gfd_closed || E->_tags.has == thas0, "D14 a descriptor that was not closed keeps its tag (listener-shared sessions)");
   __CPROVER_assert(!idx_owner_open || !E->_peerIndex.has, "D9 the peer index entry of a closed listener-side session is removed");
